@@ -230,3 +230,8 @@ def extra(rep, impl_exe, model_exe, rng, tier):
     # returned barcodes must remain what they were when other symbols are encoded afterwards
     import held
     return held.held_phase(rep, impl_exe, rng, ['ean'], n=10 if tier == "quick" else 80)
+
+
+def public_line(line):
+    t = line.split(" ")
+    return "encfull " + line if t[0] == "ean" and len(t) == 2 else None
